@@ -27,6 +27,12 @@ theorem delimiters_generated :
   · intro c; simp [Model.delimiters, ConstsC09.delimiters]; omega
   · decide
 
+/-- The type the reader treats as "a CNAME" is type 5, and the only types allowed next to it are NSEC (47), NSEC3 (50)
+and KEY (25): `dns.node._cname_types` / `_neutral_types` of the working tree, which `cname_exclusive` is relative to. -/
+theorem cname_tables_generated :
+    ConstsC09.cnameTypes = [5] ∧ ConstsC09.neutralTypes = [25, 47, 50] ∧ classifyType tCNAME = .cname := by
+  decide
+
 /-- "$TTL emission" / explicit TTLs: `dns.ttl.from_text` inverts the decimal text of every TTL up to `MAX_TTL`
 (the form in which the writer prints TTLs and the `$TTL` directive). -/
 theorem ttl_roundtrip (n : Nat) (h : n ≤ Consts.maxTTL) : ttlFromText (natToDec n) = .ok n := by
